@@ -438,7 +438,8 @@ fn gen_img(args: &Args, out: &mut dyn Write) {
             .collect();
         let kind = if i % 7 == 3 { "col" } else { "fb" };
         let via = *rng.pick(&["render", "render", "batch", "camera"]);
-        let sc = *rng.pick(&[0i64, 0, 0, -10, -16, 8]);
+        // (2^14 and beyond: reciprocal depths far below 1e-6, where an absolute notion of "equal" would bite)
+        let sc = *rng.pick(&[0i64, 0, 0, -10, -16, 8, 14, 18, 22]);
         // face culling: none / back faces (the default context) / front faces
         let cull = (i / 2) % 3;
         let win = [0, 1, 0, 2][i % 4];
